@@ -667,6 +667,10 @@ Section TotalHistories.
   Variable t : tree.
   Hypothesis WT : wt_tree t = true.
 
+  Corollary get_total_value n p : (N.to_nat n < List.length t)%nat -> valid_prop p ->
+    exists v, computed exactQ true t n p = Ok v.
+  Proof. intros Hn Hp. destruct (get_total t WT n p Hn Hp) as (v & Hv & _). eauto. Qed.
+
   Lemma get_total_ih n : (N.to_nat n < List.length t)%nat ->
     forall j, j < n -> forall q, valid_prop q -> total_at t j q.
   Proof. intros Hn j Hj q Hq. apply (get_total t WT); [lia|exact Hq]. Qed.
